@@ -108,6 +108,12 @@ CLAIMED = {
         text="Lean: the syntactic implication procedure on cfg predicates (DNF of the user side evaluated as a minimal feature set against a negation-free target, split on `std`) is sound for every feature set (implies_sound, by mutual induction: monotonicity, DNF soundness, substitution); every one of the 95 references regenerated from the working tree (module -> gated helper item of utils.rs & co, expansion template -> facade export incl. __private and with_trait, module -> optional dependency via the impl feature table, helper export -> the features needing it, named derive re-export <-> its feature) passes it (all_refs_hold, decide +kernel), hence gating_closed for all 2^27 feature sets, not only singles and pairs; cargo_tables: facade feature f == impl feature f, full == all 24, default == [std]. Tie and search: every crate-internal path must resolve in the item tables; for a failing reference the model computes a witness feature set which is built and tested first. Real builds from the working tree: all 24 single features with and without std through `cargo test --tests` (the repository's own test programs of the enabled derives: 1105 test passes), 24 sampled pairs and 8 impl-only configurations through cargo check; thorough: all 276 pairs x {std, no std}, all impl singles, full",
         note="partial: Lean kernel for the cfg model + regenerated table; cargo decides the configurations actually built",
         ref="DESIGN.md §4 C20"),
+    "C18": dict(
+        level="proof",
+        technique="Lean 4 theorems about a byte-level model of the literal parser's slicing / looping combinators (for every string and every well-behaved argument parser) + kernel-decided closure of the regenerated inventory of potentially aborting expressions + differential run of the combinator model against the real combinators through a guarded hook + fuzzing of all 50 derives under catch_unwind with a watchdog (partial: most inventory sites outside the literal parser are covered by the fuzzing only)",
+        text="Lean: char / check_char / any_char / str / one_of never panic and return a proper suffix; for every well-behaved argument parser and every input string take_while0 terminates within length+1 steps, does not panic, and `&input[..(input.len() - cur.len())]` is exactly the consumed prefix (a char boundary), likewise take_while1 and take_until1 (whose `until` only needs to be panic-free) — by induction over fuel with the suffix invariant and `byteLen (pre ++ cur) - byteLen cur = byteLen pre`; a character count used as a byte offset panics on U+3000 (example). no_unaccounted_site: the inventory of index / slice expressions, unwrap / expect, panic!-family macros, `-` `/` `%`, Punctuated::push_*, Ident::new, format_ident!, parse_quote! regenerated from impl/src on every run (175 sites: 13 proved, 20 deliberate diagnostics, 142 observed) has nothing beyond the accounted-for baseline. Tie: 12 named combinator instances of the real parser (hook) vs the Lean model on 4380 strings each (exhaustive up to length 3 over 1-4 byte characters, random up to 44). Search: 10.7 k expansions under catch_unwind with hang / abort bisection: every generated item of the other properties under its own and 4 random other derives, 16 odd item kinds x 50 derives (unions, empty enums, raw identifiers, discriminant extremes), 700 token-level attribute mutations, 6.6 k format literals (exhaustive up to length 2, random longer, 30-digit numbers, unbalanced braces, 1-4 byte characters); a panic is an internal failure unless it comes from a panic!/assert! site of the inventory with a message",
+        note="partial: Lean kernel for the combinator model; inventory by translator; fuzzing is a search, not a proof",
+        ref="DESIGN.md §4 C18"),
 }
 
 NOT_APPLICABLE = {}
@@ -122,7 +128,7 @@ def main():
             "guard": "cargo feature jeltef_derive_more_verif (impl/Cargo.toml), cfg(feature = \"jeltef_derive_more_verif\")",
             "enable": "the harness crate /verif/harness/inproc includes /repo/impl/src/*.rs by #[path] and enables its own feature of the same name; scratch crates using the real proc-macro are built with the guard off",
             "baseline_off_cmd": "cd /repo && cargo test --workspace --no-fail-fast --offline",
-            "source_commits": ["33650de"],
+            "source_commits": ["33650de", "d9d3f1d", "8e51434"],
             "add_only": True,
         },
         "engines": [
